@@ -436,7 +436,8 @@ def cache_key(chk, op):
     img = "IMG-HH-ALOS2012345678-140102-WBDR1.5RUD"
     pairs = [("/archive/ALOS2/scene", "/archive/alos2/scene", "letter case"), ("s3://bucket/Scene-A", "s3://bucket/scene-a", "letter case of the key"),
              ("/data/a b", "/data/ab", "blanks"), ("/data/a", "/data/a/b", "nesting depth"), ("memory://x/p", "file://x/p", "protocol"),
-             ("/a/b", "/a_b", "separator characters"), ("/data/scene.1", "/data/scene.2", "dotted suffix"), ("/data/0123456789/scene", "/data/0123456780/scene", "long common prefix")]
+             ("/a/b", "/a_b", "separator characters"), ("/orders/0000276461#1", "/orders/0000276461#2", "text after '#'"), ("/orders/x?v=1", "/orders/x?v=2", "text after '?'"),
+             ("/data/scene ", "/data/scene", "trailing blank"), ("/data/Scène", "/data/Scene", "accents"), ("/data/scene.1", "/data/scene.2", "dotted suffix"), ("/data/0123456789/scene", "/data/0123456780/scene", "long common prefix")]
     for r1, r2, what in pairs:
         l1, l2 = _local_parts(repo, loc, r1, img), _local_parts(repo, loc, r2, img)
         chk.require(l1 != l2, "C07-N2", op.where(loc), f"roots differing in {what} get different cache locations",
